@@ -270,8 +270,8 @@ class CallMixin:
         if isinstance(v, SV) and v.ty.kind == "list":
             if v.term is None:
                 return SV(None, T.Set(T.UNKNOWN), fresh=True)
-            i = z3.Const(f"si{next(_cc)}", z3.IntSort())
-            x = z3.Const(f"sx{next(_cc)}", self.w.sort(v.ty.args[0]))
+            i = z3.Const(f"si${len(self.binders)}", z3.IntSort())
+            x = z3.Const(f"sx${len(self.binders)}", self.w.sort(v.ty.args[0]))
             n = self.list_len(v)
             return SV(z3.Lambda([x], z3.Exists([i], z3.And(0 <= i, i < n, self.list_get(v, i) == x))),
                       T.Set(v.ty.args[0]), fresh=True)
